@@ -65,6 +65,31 @@ where
     Dyn(Box::new(Erase(a)))
 }
 
+/// The same automaton reached through the blanket `impl Automaton for &T`: every method goes through the
+/// forwarding impl of a BORROWED automaton, as in `(&a).complement()` or `set.search(&a)`.
+pub struct ViaRef(pub Dyn);
+impl Automaton for ViaRef {
+    type State = Box<dyn Any>;
+    fn start(&self) -> Box<dyn Any> {
+        <&Dyn as Automaton>::start(&&self.0)
+    }
+    fn is_match(&self, s: &Box<dyn Any>) -> bool {
+        <&Dyn as Automaton>::is_match(&&self.0, s)
+    }
+    fn can_match(&self, s: &Box<dyn Any>) -> bool {
+        <&Dyn as Automaton>::can_match(&&self.0, s)
+    }
+    fn will_always_match(&self, s: &Box<dyn Any>) -> bool {
+        <&Dyn as Automaton>::will_always_match(&&self.0, s)
+    }
+    fn accept(&self, s: &Box<dyn Any>, b: u8) -> Box<dyn Any> {
+        <&Dyn as Automaton>::accept(&&self.0, s, b)
+    }
+    fn accept_eof(&self, s: &Box<dyn Any>) -> Option<Box<dyn Any>> {
+        <&Dyn as Automaton>::accept_eof(&&self.0, s)
+    }
+}
+
 /// A user-defined table DFA: class = byte % ncls; next is state-major.
 #[derive(Clone, Debug)]
 pub struct Table {
@@ -169,6 +194,17 @@ impl Exp {
             Exp::I(a, b) => erase(a.build().intersection(b.build())),
             Exp::C(a) => erase(a.build().complement()),
         }
+    }
+    /// The same expression with every operand of every combinator (and the result) used through a borrow.
+    pub fn build_ref(&self) -> Dyn {
+        let inner = match self {
+            Exp::SW(a) => erase(ViaRef(a.build_ref()).starts_with()),
+            Exp::U(a, b) => erase(ViaRef(a.build_ref()).union(ViaRef(b.build_ref()))),
+            Exp::I(a, b) => erase(ViaRef(a.build_ref()).intersection(ViaRef(b.build_ref()))),
+            Exp::C(a) => erase(ViaRef(a.build_ref()).complement()),
+            leaf => leaf.build(),
+        };
+        erase(ViaRef(inner))
     }
     pub fn token(&self) -> String {
         match self {
